@@ -1,4 +1,41 @@
-//! Small helpers shared by the harness binaries.
+//! Small helpers shared by the harness subcommands.
+use serde::de::DeserializeOwned;
+use std::io::{BufRead, BufReader, Write};
+
 pub fn seed_from_env() -> u64 {
   std::env::var("VERIF_SEED").ok().and_then(|s| s.parse().ok()).unwrap_or(1)
+}
+
+/// Read a file with one JSON value per line.
+pub fn read_jsonl<T: DeserializeOwned>(path: &str) -> Vec<T> {
+  let f = std::fs::File::open(path).unwrap_or_else(|e| tool_error(&format!("open {}: {}", path, e)));
+  let mut out = Vec::new();
+  for (i, line) in BufReader::new(f).lines().enumerate() {
+    let line = line.unwrap_or_else(|e| tool_error(&format!("read {}: {}", path, e)));
+    if line.trim().is_empty() {
+      continue;
+    }
+    match serde_json::from_str::<T>(&line) {
+      Ok(v) => out.push(v),
+      Err(e) => tool_error(&format!("{}:{}: {}", path, i + 1, e)),
+    }
+  }
+  out
+}
+
+pub fn write_json<T: serde::Serialize>(path: &str, v: &T) {
+  let mut f = std::fs::File::create(path).unwrap_or_else(|e| tool_error(&format!("create {}: {}", path, e)));
+  f.write_all(serde_json::to_string(v).unwrap().as_bytes()).unwrap();
+  f.write_all(b"\n").unwrap();
+}
+
+/// Exit code 2 is reserved for tool errors (never for findings).
+pub fn tool_error(msg: &str) -> ! {
+  eprintln!("TOOL-ERROR {}", msg);
+  std::process::exit(2)
+}
+
+/// Silence the default panic message (panics in code under test are data, caught and reported).
+pub fn quiet_panics() {
+  std::panic::set_hook(Box::new(|_| {}));
 }
